@@ -52,6 +52,10 @@ type SrvOpt struct {
 	MaxPending   int
 	MaxBuffered  int
 	RawLeaf      *[]byte // hostile server: these bytes are presented as the leaf certificate
+	// ViaHopServer: the transport configuration (hidden-mode activation, certificate callbacks, hidden virtual
+	// host names) is the one a real hopserver.NewHopServer derives from an equivalent server configuration with
+	// per-name keys only; the transport server itself still runs on the simulated wire.
+	ViaHopServer bool
 }
 
 // NewServer starts a real server.
@@ -64,6 +68,15 @@ func (w *World) NewServer(addr *net.UDPAddr, o SrvOpt) *Srv {
 	}
 	if len(o.Extra) > 0 {
 		cfg.GetCertificate, cfg.GetCertList = vhostCallbacks(o)
+	}
+	if o.ViaHopServer {
+		if real, ok := realTransportConfig(o); ok {
+			cfg.KeyPair, cfg.KEMKeyPair, cfg.Certificate, cfg.Intermediate = nil, nil, nil, nil
+			cfg.GetCertificate, cfg.GetCertList = real.GetCertificate, real.GetCertList
+			cfg.IsHidden, cfg.HiddenModeVHostNames = real.IsHidden, real.HiddenModeVHostNames
+		} else {
+			panic("hopkit: real hop server configuration not available")
+		}
 	}
 	if o.RawLeaf != nil {
 		tc, err := transport.MakeCert(o.Ident.Key, o.Ident.Leaf, o.Ident.Inter, o.KEM)
@@ -100,10 +113,10 @@ type Cli struct {
 
 // CliOpt configures NewClient.
 type CliOpt struct {
-	Ident     *Ident
-	Verify    *transport.VerifyConfig
-	ServerKEM *keys.KEMPublicKey // non-nil selects the hidden handshake
-	HSTimeout time.Duration
+	Ident       *Ident
+	Verify      *transport.VerifyConfig
+	ServerKEM   *keys.KEMPublicKey // non-nil selects the hidden handshake
+	HSTimeout   time.Duration
 	MaxBuffered int
 }
 
@@ -194,6 +207,15 @@ func (w *World) Close() {
 // which is closed again at once) and the closures are taken from its transport configuration.  If that is not
 // possible the selection rule is rebuilt here from hopserver.VirtualHosts.Match (modelVhostCallbacks).
 func vhostCallbacks(o SrvOpt) (func(transport.ClientHandshakeInfo) (*transport.Certificate, error), func() ([]*transport.Certificate, error)) {
+	if real, ok := realTransportConfig(o); ok {
+		return real.GetCertificate, real.GetCertList
+	}
+	return modelVhostCallbacks(o)
+}
+
+// realTransportConfig runs hopserver.NewHopServer on a configuration equivalent to o (per-name keys and
+// certificates, no top-level key) and returns the transport configuration it derived.
+func realTransportConfig(o SrvOpt) (transport.ServerConfig, bool) {
 	ids := append([]*Ident{o.Ident}, o.Extra...)
 	kems := append([]*keys.KEMKeyPair{o.KEM}, o.ExtraKEM...)
 	sc := &config.ServerConfig{ListenAddress: "127.0.0.1:0", InsecureSkipVerify: true, HandshakeTimeout: 30 * time.Second}
@@ -215,10 +237,10 @@ func vhostCallbacks(o SrvOpt) (func(transport.ClientHandshakeInfo) (*transport.C
 		real := hs.Server.VerifConfig()
 		hs.Server.Close()
 		if real.GetCertificate != nil && real.GetCertList != nil {
-			return real.GetCertificate, real.GetCertList
+			return real, true
 		}
 	}
-	return modelVhostCallbacks(o)
+	return transport.ServerConfig{}, false
 }
 
 func modelVhostCallbacks(o SrvOpt) (func(transport.ClientHandshakeInfo) (*transport.Certificate, error), func() ([]*transport.Certificate, error)) {
